@@ -114,6 +114,22 @@ Theorem C07_other_classes_veto :
 Proof. exact nonfatal_class_vetoes. Qed.
 Print Assumptions C07_other_classes_veto.
 
+(* No status a HANDLER can produce by returning an error (every grpc code but OK and DeadlineExceeded:
+   plain errors arrive as Unknown, os.ErrInvalid as InvalidArgument, status errors with their own code)
+   is in the regenerated table: each of them vetoes the request with its message. *)
+Theorem C07_handler_errors_veto :
+  forall c, In c handler_error_classes ->
+    is_fatal c = false /\ forall (Rp : Type) msg, classify (Rp:=Rp) (Failed c msg) = Veto msg.
+Proof. exact (fun c H => conj (handler_class_not_fatal c H) (fun Rp msg => handler_class_vetoes Rp c msg H)). Qed.
+Print Assumptions C07_handler_errors_veto.
+
+(* … and the table names nothing but the six fault classes: with C07_fault_classes_fatal, the
+   regenerated table is exactly that set. *)
+Theorem C07_fatal_table_is_exactly_the_fault_classes :
+  forall c, is_fatal c = true <-> In c fault_error_classes.
+Proof. exact (fun c => conj (fatal_only_fault_classes c) (fault_classes_all_fatal c)). Qed.
+Print Assumptions C07_fatal_table_is_exactly_the_fault_classes.
+
 (* Plugins (set I) that got the request but do not answer within the time-out T, or whose calls
    fail with one of the fault classes, leave the request exactly as if they were not in the list. *)
 Theorem C07_failing_plugins_are_absent :
@@ -180,6 +196,15 @@ Example C07_deadline_status :
   o_result (snd (tk_run_request 100 (1%N, 4%Z) h [fxA; fxB; fxC])) = inl ["A"; "C"] /\
   map p_name (fst (tk_run_request 100 (1%N, 4%Z) h [fxA; fxB; fxC])) = ["A"; "C"].
 Proof. vm_compute. split; reflexivity. Qed.
+
+(* B's handler rejects the request with a status of its own / with os.ErrInvalid: a veto, C is not asked *)
+Example C07_handler_status_error :
+  let h := fx_handler (Failed "codes.InvalidArgument" "invalid argument") in
+  In "codes.InvalidArgument" handler_error_classes /\
+  o_result (snd (tk_run_request 100 (1%N, 4%Z) h [fxA; fxB; fxC])) = inr "invalid argument" /\
+  map p_name (o_invoked (snd (tk_run_request 100 (1%N, 4%Z) h [fxA; fxB; fxC]))) = ["A"; "B"] /\
+  map p_name (fst (tk_run_request 100 (1%N, 4%Z) h [fxA; fxB; fxC])) = ["A"; "B"; "C"].
+Proof. vm_compute. repeat split. right; right; left; reflexivity. Qed.
 
 (* hypotheses of C07_failing_plugins_are_absent are satisfiable: B hangs *)
 Example C07_failing_hyp :
